@@ -268,6 +268,8 @@ func c24Run(line string) string {
 }
 
 var c24Token = "s3cr3t-Token_1"
+var c24Tok71 = "T71-" + strings.Repeat("abcdefghij", 6) + "1234567" // 71 bytes
+var c24Tok72 = "T72-" + strings.Repeat("abcdefghij", 6) + "12345678" // 72 bytes
 
 func c24Gen(w *bufio.Writer, seed int64, tier string) {
 	r := newRng(seed)
@@ -403,7 +405,15 @@ func c24Gen(w *bufio.Writer, seed int64, tier string) {
 				p = strings.NewReplacer("pprof/profile", "pprof/cmdline", "pprof/trace", "pprof/symbol").Replace(p)
 			}
 		}
-		cfgtok := c24Token
+		// configured token: short, or at bcrypt's 72-byte boundary (71 / 72 bytes)
+		tok := c24Token
+		switch r.intn(10) {
+		case 0, 1:
+			tok = c24Tok71
+		case 2, 3:
+			tok = c24Tok72
+		}
+		cfgtok := tok
 		if r.chance(25) {
 			cfgtok = ""
 		}
@@ -412,42 +422,54 @@ func c24Gen(w *bufio.Writer, seed int64, tier string) {
 			flags = "111"
 		}
 		auth := ""
-		switch r.intn(14) {
+		switch r.intn(18) {
 		case 0, 1, 2:
-			auth = "Bearer " + c24Token
+			auth = "Bearer " + tok
 		case 3:
 			auth = "Bearer wrong-token"
 		case 4:
 			auth = "Bearer "
 		case 5:
-			auth = "bearer " + c24Token
+			auth = "bearer " + tok
 		case 6:
 			auth = "Basic dXNlcjpwYXNz"
 		case 7:
-			auth = "Bearer  " + c24Token
+			auth = "Bearer  " + tok
 		case 8:
-			auth = c24Token
+			auth = tok
 		case 9:
-			auth = "Bearer " + c24Token + " "
+			auth = "Bearer " + tok + " "
 		case 10:
 			if r.chance(20) { // longer than bcrypt's 72-byte limit
-				auth = "Bearer " + strings.Repeat(c24Token, r.pick(6, 100, 3000))
+				auth = "Bearer " + strings.Repeat(tok, r.pick(6, 100, 3000))
 			}
+		case 11: // the token plus a suffix: bcrypt ignores everything past 72 bytes
+			auth = "Bearer " + tok + r.pickS("x", "-suffix", strings.Repeat("y", 128))
+		case 12: // the token minus its last byte, or with the last byte changed
+			auth = "Bearer " + tok[:len(tok)-1] + r.pickS("", "#")
+		case 13:
+			auth = "Bearer " + strings.Repeat("k", r.pick(71, 72, 73, 200))
 		}
 		hasq, qt := 0, ""
-		switch r.intn(10) {
+		switch r.intn(14) {
 		case 0, 1:
-			hasq, qt = 1, c24Token
+			hasq, qt = 1, tok
 		case 2:
 			hasq, qt = 1, "wrong"
 		case 3:
 			hasq, qt = 1, ""
 		case 4:
-			hasq, qt = 1, c24Token+"x"
+			hasq, qt = 1, tok+"x"
 		case 5:
 			if r.chance(20) {
 				hasq, qt = 1, strings.Repeat("t", r.pick(73, 5000))
 			}
+		case 6: // NUL bytes reach the check through the query only: bcrypt NUL-terminates and cycles the key
+			hasq, qt = 1, tok+"\x00"+r.pickS("", "x", tok, tok+"\x00", tok+"\x00"+tok)
+		case 7:
+			hasq, qt = 1, tok+strings.Repeat("z", r.pick(1, 58, 59, 200))
+		case 8:
+			hasq, qt = 1, r.pickS("\x00", tok[:len(tok)-1], "\x00"+tok)
 		}
 		fmt.Fprintf(w, "req %s %s %s %s %s %d %s\n", hexTok([]byte(cfgtok)), flags, methods[r.intn(len(methods))], hexTok([]byte(p)), hexTok([]byte(auth)), hasq, hexTok([]byte(qt)))
 	}
